@@ -171,6 +171,9 @@ inductive Scripted
   | genEmpty
   /-- authenticates; one agent key with `n` requests; adding its certificates ends as given -/
   | genKey (csrs : Nat) (addCerts : Option ErrKind) (addPanic : Bool)
+  /-- authenticates and generates like `genKey n none false`, but its `Name()` panics (`Run` asks
+      the selected handler for its name only when it logs success) -/
+  | genKeyNamePanic (csrs : Nat)
 deriving DecidableEq, Repr
 
 inductive Handler
@@ -385,6 +388,11 @@ def run (conf : Conf) (p : Param) (hs : List Handler) (w : World) : World × Tra
           else match addErr with
             | some _ => (w3, trg ++ tr3, .err .agentOpCert)
             | none => (w3, trg ++ tr3, .ok)
+      | .genKeyNamePanic n =>
+        match signAll (.registered (500 + i)) n w1 with
+        | (w3, tr3, .error .panic) => (w3, trg ++ tr3, .err .panic)
+        | (w3, tr3, .error _) => (w3, trg ++ tr3, .err .signerSign)
+        | (w3, tr3, .ok _) => (w3, trg ++ tr3, .err .panic)
       | _ => (w1, trg, .err .panic)     -- unreachable: these scripts never authenticate
 
 end Ysshra.Gensign
